@@ -417,11 +417,18 @@ def run_case(idx, rng, P, rep):
                 p = rng.choice(CONST)
                 if foreign_open(i):
                     touched_foreign.add(i)
+                how_same = rng.choice(['assign', 'assign', 'trigger'])
                 try:
-                    setattr(insts[i], p, held[i][p])
+                    if how_same == 'assign':
+                        setattr(insts[i], p, held[i][p])
+                    else:
+                        # announcing a constant (which re-assigns the very object it holds) is allowed and changes nothing,
+                        # now or later
+                        insts[i].param.trigger(p)
+                        rep.count('constants_triggered')
                 except TypeError:
                     pass
-                trace.append(('same', f'inst{i}.{p}'))
+                trace.append(('same', f'inst{i}.{p}', how_same))
                 check_unchanged(i, 'identical re-assignment')
             elif c < 0.46:
                 kinds.append('class_set')
